@@ -362,7 +362,8 @@ func Classify(r *Request, c *Config) Verdict {
 	var protoVals, extVals []string
 	for _, l := range r.Lines {
 		if l.NoColon {
-			if strings.ContainsAny(l.Name, ":\r\n") {
+			if l.Name == "" || l.Name[0] == ' ' || l.Name[0] == '\t' || strings.ContainsAny(l.Name, ":\r\n") {
+				// (a line starting with a blank is a folded continuation to net/http)
 				open("odd malformed line")
 			} else {
 				wrong("header line without colon", 400)
@@ -411,6 +412,9 @@ func Classify(r *Request, c *Config) Verdict {
 			}
 		}
 		name := RequiredNames[h]
+		if h == HHost && c.Kind == HTTP && IsAbsoluteTarget(r.Target) {
+			continue // already open: net/http takes the host from the target
+		}
 		switch {
 		case len(copies[h]) == 0:
 			wrong(name+" absent", badStatus[h]...)
@@ -475,10 +479,15 @@ func Classify(r *Request, c *Config) Verdict {
 				}
 			}
 		} else {
+			var objected []string
 			for _, o := range v.Offers {
 				if p, ok := c.Ext[o.Name]; ok && p.fails(c.ExtMode) {
-					wrong("negotiator objects to "+o.Name, p.wantStatus())
+					objected = append(objected, o.Name)
+					statuses[p.wantStatus()] = true
 				}
+			}
+			if len(objected) > 0 {
+				wrong("negotiator objects to " + strings.Join(objected, ", "))
 			}
 		}
 	}
